@@ -318,3 +318,61 @@ func globalWriteAllowed(w *World, g *ssa.Global) bool {
 	}
 	return false
 }
+
+// checkIsolation (C08): package-level state is what contexts could share.  Every store to a package-level variable
+// outside init in the interpreter's packages must be declared (allow-global-write, with the reason in the contract
+// file) - a new unsynchronised package-level variable written at run time fails the obligation.
+func checkIsolation(w *World) []*Result {
+	var bad []string
+	n := 0
+	var fns []*ssa.Function
+	for fn := range ssautil.AllFunctions(w.Prog) {
+		if strings.HasPrefix(pkgPathOf(fn), repoModule) && fn.Blocks != nil {
+			fns = append(fns, fn)
+		}
+	}
+	sort.Slice(fns, func(i, j int) bool { return fns[i].String() < fns[j].String() })
+	for _, fn := range fns {
+		top := fn
+		for top.Parent() != nil {
+			top = top.Parent()
+		}
+		if top.Name() == "init" || strings.HasPrefix(top.Name(), "init#") {
+			continue
+		}
+		for _, b := range fn.Blocks {
+			for _, ins := range b.Instrs {
+				st, ok := ins.(*ssa.Store)
+				if !ok {
+					continue
+				}
+				g, ok := st.Addr.(*ssa.Global)
+				if !ok {
+					continue
+				}
+				n++
+				if !globalWriteAllowed(w, g) {
+					bad = append(bad, fmt.Sprintf("%s writes %s", shortFuncName(fn.String()), shortFuncName(g.String())))
+				}
+			}
+		}
+	}
+	ob := &Obligation{Name: "frame:isolation:scan", Kind: "frame", caseSel: -1}
+	out := []*Result{{Ob: ob, Status: "unsat", Solver: "ssa-scan", Output: fmt.Sprintf("%d stores to package-level variables outside init examined", n)}}
+	// one obligation per undeclared variable, so that a recorded finding does not hide a new one
+	byVar := map[string][]string{}
+	for _, b := range bad {
+		parts := strings.SplitN(b, " writes ", 2)
+		byVar[parts[1]] = append(byVar[parts[1]], parts[0])
+	}
+	var vars []string
+	for v := range byVar {
+		vars = append(vars, v)
+	}
+	sort.Strings(vars)
+	for _, v := range vars {
+		o := &Obligation{Name: "frame:isolation:global:" + v, Kind: "frame", caseSel: -1}
+		out = append(out, &Result{Ob: o, Status: "sat", Solver: "ssa-scan", Output: "written outside init by " + strings.Join(byVar[v], ", ")})
+	}
+	return out
+}
